@@ -1,10 +1,13 @@
 From Coq Require Import ZArith QArith List Bool.
 Import ListNotations.
-From AF Require Import Lib.MiniForge C06.Model Lib.MiniSpace C19.Proofs.
+From AF Require Import Lib.MiniForge C06.Model Lib.MiniSpace C19.Proofs C19.Thr.
 Open Scope Z_scope.
 Definition sp0 : spec :=
   mkS [2; 4] [mkT [false; true] false; mkT [true; true] true]
       [mkL true 15 10 None None 2 [1#2; 1#2]%Q [2; 2]%Q; mkL true 8 3 (Some 8%Q) None 2 [1; 1#2]%Q [2; 1]%Q] false 4 (Some 1%Q) 0.
 Definition ms0 : mspec := mkM sp0 [[true; true]; [false; false]] [[true; true]; [true; true]] [None; Some 16] [[16; 16]; [16; 8]].
 Example ex : exists a b, opt ms0 MEnergy = Some a /\ opt (scale_mspec (15 # 2) ms0) MEnergy = Some b /\ (b == (15 # 2) * a)%Q.
+Proof. eexists. eexists. split; [vm_compute; reflexivity|]. split; [vm_compute; reflexivity|]. vm_compute. reflexivity. Qed.
+(* throughput x 4: the optimal latency exists and is divided by 4 *)
+Example ex_thr : exists a b, opt ms0 MLatency = Some a /\ opt (thr_mspec 4 ms0) MLatency = Some b /\ (b == (1 # 4) * a)%Q.
 Proof. eexists. eexists. split; [vm_compute; reflexivity|]. split; [vm_compute; reflexivity|]. vm_compute. reflexivity. Qed.
